@@ -21,7 +21,16 @@ import (
 	"time"
 )
 
-const verifRoot = "/verif"
+// verifRoot is the directory of the ./check script (the working directory it switches to): /verif, or a
+// snapshot of it when a long run is started with `vp run`.
+var verifRoot = func() string {
+	if d, err := os.Getwd(); err == nil {
+		if _, err := os.Stat(filepath.Join(d, "spec")); err == nil {
+			return d
+		}
+	}
+	return "/verif"
+}()
 
 // exit codes: 0 property held on everything explored; 1 violation; 2 infrastructure trouble
 func infraFail(format string, a ...interface{}) {
